@@ -215,7 +215,8 @@ static UBool IsFieldPointerValid(const UMessage * msg, uint8 * ptr)
    if ((ftptr)&&(GetNumValidBytesAt(msg, ((uint8*)ftptr)) >= (sizeof(uint32)+sizeof(uint32))))
    {
       uint8 * fData = GetFieldData(ftptr);
-      return (GetNumValidBytesAt(msg, fData) > 0);
+      const uint32 numValidDataBytes = GetNumValidBytesAt(msg, fData);
+      return ((numValidDataBytes > 0)&&(numValidDataBytes >= GetFieldDataLength(ftptr)));  /* the field's declared data must fit inside our valid bytes too */
    }
    return UFalse;
 }
